@@ -545,7 +545,10 @@ def outcomes_from(o, r, kind, native, e2, Outcome):
     for v in r["violations"]:
         groups.setdefault((v["shape"], role_of(v["clause"])), []).append(v)
     replayed = 0
+    sample["violation_groups"] = len(groups)
     for (shape, role), vs in groups.items():
+        if replayed >= 4 and outs:
+            break       # further groups are listed in the replay files of the first ones only
         v = vs[0]
         oid = o["id"]
         scen = build_scenario(kind, v)
@@ -588,6 +591,9 @@ def build_scenario(kind, v):
             return scenario(pre, vals, adds=adds, split_after=sa, add_signs=add_signs, check_capacity=True)
         if kind == "delete":
             return scenario(pre, vals, dels=vals.get("set:to_delete", []), split_after=sa, check_capacity=True)
+        if kind == "simd":
+            import e2_simd
+            return e2_simd.simd_scenario(v)
         if kind == "metric":
             import e2_metric
             return e2_metric.metric_scenario(v)
